@@ -331,3 +331,20 @@ def callback_function(expr, enclosing_fn=None, methods=None):
     if methods is not None and is_self_attr(expr) and expr.attr in methods:
         return methods[expr.attr]
     return None
+
+
+def clone(n):
+    """structural copy of a syntax tree WITHOUT the analysis annotations (`_parent` links and caches): copy.deepcopy would follow
+    `_parent` up to the module and copy the whole file for every node"""
+    if isinstance(n, ast.AST):
+        new = n.__class__()
+        for f in n._fields:
+            if hasattr(n, f):
+                setattr(new, f, clone(getattr(n, f)))
+        for a in n._attributes:
+            if hasattr(n, a):
+                setattr(new, a, getattr(n, a))
+        return new
+    if isinstance(n, list):
+        return [clone(x) for x in n]
+    return n
